@@ -117,7 +117,56 @@ class Spec:
                 if hasattr(r, "todense"):
                     r = numpy.asarray(r.todense())
                 res[m] = numpy.asarray(r)
+        if methods is None:
+            res.update(self.getters(est, Q))
         return res
+
+    _NOT_A_GETTER = ("fit", "set_", "get_params", "partial_fit")
+
+    def getters(self, est, Q=None):
+        """Every public property and zero-argument method mlinsights defines on the class (get_leaves_index,
+        cluster_edges, get_fct_inv, classes_, n_estimators_, ...): lazily cached answers are state too."""
+        import inspect
+        out = {}
+        for name in dir(type(est)):
+            if name.startswith("_") or name.startswith(self._NOT_A_GETTER):
+                continue
+            klass = next((k for k in type(est).__mro__ if name in vars(k)), None)
+            if klass is None or not klass.__module__.startswith("mlinsights"):
+                continue
+            attr = vars(klass)[name]
+            try:
+                if isinstance(attr, property):
+                    val = getattr(est, name)
+                elif inspect.isfunction(attr):
+                    ps = list(inspect.signature(attr).parameters.values())[1:]
+                    if any(p.default is p.empty and p.kind in (p.POSITIONAL_ONLY, p.POSITIONAL_OR_KEYWORD,
+                                                                p.KEYWORD_ONLY) for p in ps):
+                        continue
+                    val = getattr(est, name)()
+                else:
+                    continue
+            except Exception as e:
+                val = "raised %s" % type(e).__name__
+            if hasattr(val, "get_params"):
+                # a reciprocal transformer: described by what it does to this instance's transformed targets
+                if self.kind == "xy->xy" and isinstance(Q, tuple):
+                    try:
+                        val = numpy.asarray(val.transform(Q[0], est.transform(Q[0], Q[1])[1])[1])
+                    except Exception as e:
+                        val = "raised %s" % type(e).__name__
+                else:
+                    val = type(val).__name__
+            if isinstance(val, (set, frozenset)):
+                val = sorted(val)
+            try:
+                val = numpy.asarray(val)
+            except Exception:
+                val = numpy.asarray(repr(val))
+            if val.dtype == object:
+                val = numpy.asarray(repr(val.tolist()))
+            out["getter:" + name] = val
+        return out
 
     @staticmethod
     def take(Q, idx):
